@@ -27,7 +27,11 @@ def grid(keys, tier, extra=None, cap=None, filt=None):
     if tier != 'quick' and len(keys) >= 3:
         ws = QW + [16, 32, 33, 64]
     out = []
-    for tup in itertools.product(ws, repeat=len(keys)):
+    tups = list(itertools.product(ws, repeat=len(keys)))
+    # stretch points far outside the small grid (a change that only shows beyond 64 extra bits must not hide)
+    st = {1: [(130,)], 2: [(1, 130), (3, 131), (64, 200), (130, 1), (200, 64)],
+          3: [(1, 1, 130), (64, 8, 200), (130, 130, 1), (2, 130, 200)]}.get(len(keys), [])
+    for tup in tups + st:
         d = dict(zip(keys, tup))
         for e in (extra or [{}]):
             dd = dict(d); dd.update(e)
